@@ -216,6 +216,26 @@ def run_functions(chk: core.Check, thorough: bool):
                         bad("awkward array with missing values", dt, got[:12], want[:12]); return
                 except Exception as ex:
                     unsupported[f"{name}:masked"] = f"{type(ex).__name__}: {str(ex)[:80]}"
+                # missing values at two levels at once: missing elements inside the lists AND missing whole lists
+                try:
+                    k3 = max(1, n // 3)
+                    cnt = [k3, 0, n - 2 * k3, k3] if n - 2 * k3 >= 0 and k3 * 2 <= n else [n]
+                    keep_list = (np.arange(len(cnt)) % 3 != 2)
+                    aks = [ak.mask(ak.unflatten(ak.mask(ak.Array(np.asarray(c).astype(dt)), ~m), cnt), keep_list) for c in cols]
+                    o = fn(*aks)
+                    got = ak.to_list(o)
+                    flat_want = [None if m[i] else ref_arr[i].tolist() for i in range(n)]
+                    want, pos = [], 0
+                    for li, c_ in enumerate(cnt):
+                        want.append(flat_want[pos:pos + c_] if keep_list[li] else None)
+                        pos += c_
+                    chk.count(n, key=f"{name}-masked-two-levels")
+                    chk.hist("layout", "ak-masked-two-levels")
+                    norm = lambda L: [None if l is None else [None if g is None else float(g) for g in l] for l in L]
+                    if norm(got) != norm(want):
+                        bad("awkward array with missing lists and missing elements", dt, got[:6], want[:6]); return
+                except Exception as ex:
+                    unsupported[f"{name}:masked-two-levels"] = f"{type(ex).__name__}: {str(ex)[:80]}"
     chk.coverage["unsupported_representations"] = dict(list(unsupported.items())[:25])
     return ids
 
@@ -285,6 +305,44 @@ def run_parsers(chk: core.Check, ids):
                 chk.failing_input(f"{name}: the caller's big-endian ({bdt}) numpy array after the call", {"ids": list(map(int, arr))[:12], "dtype": bdt}, be.astype(np.int64).tolist()[:12], keep.astype(np.int64).tolist()[:12],
                                   "a function of the input's values: the input still holds the same values afterwards")
                 return
+        # 2-d numpy input in C order and as a Fortran-ordered / transposed array holding the same integers, flat on and off: the same values in
+        # the same logical (row-major) order
+        if len(arr) >= 4:
+            a2 = arr[: len(arr) // 2 * 2].reshape(2, -1)
+            reps2 = {"Fortran-ordered 2-d": np.asfortranarray(a2), "transpose of the transposed copy": np.ascontiguousarray(a2.T).T}
+            for flat in (False, True):
+                base = fn(a2.copy(), flat=flat, library="np")
+                for f_, ffn in fields.items():
+                    if not same(np.asarray(base[f_]).ravel(), np.asarray(ffn(a2.ravel()))):
+                        chk.failing_input(f"{name}(flat={flat}, library='np')[{f_!r}] on a 2-d numpy array", {"ids": a2.tolist()}, np.asarray(base[f_]).ravel().tolist()[:12], np.asarray(ffn(a2.ravel())).tolist()[:12],
+                                          "record fields agree with the individual field functions (values in row-major order)")
+                        return
+                for rl, ra in reps2.items():
+                    for lib in ("np", "ak"):
+                        o = fn(ra, flat=flat, library=lib); b = fn(a2.copy(), flat=flat, library=lib)
+                        chk.count(a2.size, key=f"{name}-{rl}-{flat}-{lib}")
+                        for f_ in fields:
+                            go, gb = (ak.to_list(o[f_]), ak.to_list(b[f_])) if lib == "ak" else (np.asarray(o[f_]).tolist(), np.asarray(b[f_]).tolist())
+                            if go != gb:
+                                chk.failing_input(f"{name}(flat={flat}, library={lib!r})[{f_!r}] on a {rl} numpy array vs the C-ordered array holding the same integers", {"ids": a2.tolist(), "layout": rl},
+                                                  go, gb, "the same values whatever the memory representation of the input; the flatten option equals flattening the input first")
+                                return
+        # a record handed out for a scalar belongs to the caller: editing it does not change what the next lookup of the same id returns
+        for sc_in in (int(arr[0]), np.uint32(arr[0])):
+            first = fn(sc_in, library="np") if "library" in fn.__code__.co_varnames else fn(sc_in)
+            keep = {k_: np.array(v_, copy=True) for k_, v_ in first.items()}
+            for k_ in list(first):
+                try:
+                    first[k_] = first[k_] * 0 + 77
+                except Exception:
+                    pass
+            first.pop(next(iter(first)))
+            again = fn(sc_in, library="np") if "library" in fn.__code__.co_varnames else fn(sc_in)
+            chk.count(1, key=f"{name}-scalar-record-edited")
+            if set(again) != set(keep) or any(not same(again[k_], keep[k_]) for k_ in keep):
+                chk.failing_input(f"{name}({type(sc_in).__name__}) after the caller edited the record returned by the previous identical call", {"id": int(sc_in)}, {k_: np.asarray(v_).tolist() for k_, v_ in again.items()},
+                                  {k_: v_.tolist() for k_, v_ in keep.items()}, "every call returns the fields of its input, whatever the caller did with earlier results")
+                return
         o_np = fn(arr, library="np"); o_ak = fn(ak.Array(arr), library="ak")
         for f_, ffn in fields.items():
             if not (same(o_np[f_], ffn(arr)) and ak.to_list(o_ak[f_]) == np.asarray(ffn(arr)).tolist()):
@@ -293,6 +351,20 @@ def run_parsers(chk: core.Check, ids):
     # gid / digi parsers with positions
     for name, fn, vals, single in [("parse_mdc_gid", det.parse_mdc_gid, ids["mdc_gid"], {"layer": det.mdc_gid_to_layer, "wire": det.mdc_gid_to_wire, "stereo": det.mdc_gid_to_stereo, "superlayer": det.mdc_gid_to_superlayer, "west_x": det.mdc_gid_to_west_x, "east_z": det.mdc_gid_to_east_z}),
                                    ("parse_emc_gid", det.parse_emc_gid, ids["emc_gid"], {"part": det.emc_gid_to_part, "theta": det.emc_gid_to_theta, "phi": det.emc_gid_to_phi, "center_x": det.emc_gid_to_center_x, "front_center_z": det.emc_gid_to_front_center_z})]:
+        for sc_in in (int(vals[1]), np.uint16(vals[1]), np.int64(vals[1])):
+            for with_pos in (True, False):
+                first = fn(sc_in, with_pos=with_pos)
+                keep = {k_: np.array(v_, copy=True) for k_, v_ in first.items()}
+                for k_ in list(first):
+                    first[k_] = np.asarray(first[k_]).astype(np.float64) * 10 + 1
+                first.pop(next(iter(first)))
+                again = fn(sc_in, with_pos=with_pos)
+                chk.count(1, key=f"{name}-scalar-record-edited")
+                if set(again) != set(keep) or any(not same(again[k_], keep[k_]) for k_ in keep):
+                    badk = next((k_ for k_ in keep if k_ not in again or not same(again[k_], keep[k_])), None)
+                    chk.failing_input(f"{name}({type(sc_in).__name__}, with_pos={with_pos}) after the caller edited the record returned by the previous identical call", {"gid": int(sc_in), "field": badk},
+                                      (np.asarray(again[badk]).tolist() if badk in again else "missing"), keep[badk].tolist() if badk else None, "every call returns the row of its input, whatever the caller did with earlier results")
+                    return
         for rep_label, rep in [("jagged uint16", jag(vals, "uint16")), ("numpy int64", np.asarray(vals, dtype=np.int64)), ("python int", int(vals[0])), ("sliced view", jag(vals, "int32")[1:])]:
             out = fn(rep, with_pos=True)
             chk.count(1, key=f"{name}-{rep_label}")
@@ -344,6 +416,9 @@ def float_arguments(chk: core.Check):
         cases = [("numpy arrays", lambda: fn(gid, z), slice(None)),
                  ("numpy int32 gid + float32-exact z", lambda: fn(gid.astype(np.int32), z.astype(np.float64)), slice(None)),
                  ("flat awkward arrays", lambda: fn(ak.Array(gid), ak.Array(z)), slice(None)),
+                 ("integer-typed z (int64 numpy array, negative values)", None, "intz-int64"),
+                 ("integer-typed z (int16 numpy array, negative values)", None, "intz-int16"),
+                 ("integer-typed z (int32 awkward array, negative values)", None, "intz-ak"),
                  ("awkward gid + numpy z", lambda: fn(ak.Array(gid), z), slice(None)),
                  ("numpy gid + awkward z", lambda: fn(gid, ak.Array(z)), slice(None)),
                  ("jagged awkward arrays", lambda: ak.flatten(fn(jg, jz)), slice(None)),
@@ -351,6 +426,19 @@ def float_arguments(chk: core.Check):
                  ("jagged awkward gid + python float z", None, None),
                  ("depth-3 awkward arrays", lambda: ak.flatten(fn(ak.unflatten(jg, [1, 3]), ak.unflatten(jz, [1, 3])), axis=None), slice(None))]
         for label, call, idx in cases:
+            if call is None and isinstance(idx, str):
+                zi = np.round(z).astype(np.int64); zi[:3] = [-120, -7, 95]
+                zz = {"intz-int64": zi, "intz-int16": zi.astype(np.int16), "intz-ak": ak.Array(zi.astype(np.int32))}[idx]
+                got = fn(ak.Array(gid), zz) if idx == "intz-ak" else fn(gid, zz)
+                want = np.array([fn(int(g), float(v)) for g, v in zip(gid, zi)])
+                chk.count(n, key=f"{name}-{label}")
+                chk.hist("float_arg_layout", label)
+                gotn = ak.to_numpy(got) if isinstance(got, ak.Array) else np.asarray(got)
+                if not np.allclose(gotn, want, rtol=0, atol=1e-9):
+                    i = int(np.nonzero(~np.isclose(gotn, want, rtol=0, atol=1e-9))[0][0])
+                    chk.failing_input(f"{name}(gid, z) with {label}", {"gid": int(gid[i]), "z": int(zi[i])}, float(gotn[i]), float(want[i]), "the same values whether z is a Python number, a float array or an integer-typed array")
+                    return
+                continue
             if call is None:
                 got = ak.flatten(fn(jg, 12.25))
                 want = np.array([fn(int(g), 12.25) for g in gid])
@@ -377,6 +465,101 @@ def float_arguments(chk: core.Check):
                 return
 
 
+def scalar_record_histories(chk: core.Check, clause="every call returns the row of its input, whatever the caller did with earlier results"):
+    """a record handed out for ONE element belongs to the caller: lookup, edit the returned record in place (values scaled, a key removed), the same
+    lookup again (same value given as int / numpy scalar of another dtype) - the second answer is the published row again (shared with C09)"""
+    import pybes3.detectors as det
+    import pybes3.detectors.digi_id as d
+    mdc_id = int(d.get_mdc_digi_id(7, 12, 0)); emc_id = int(d.get_emc_digi_id(1, 20, 33))
+    cases = [("parse_mdc_gid", det.parse_mdc_gid, [1234, np.uint16(1234), np.int64(1234)], {"with_pos": True}),
+             ("parse_mdc_gid", det.parse_mdc_gid, [6000, np.int32(6000)], {"with_pos": False}),
+             ("parse_emc_gid", det.parse_emc_gid, [3000, np.uint16(3000), np.int64(3000)], {"with_pos": True}),
+             ("parse_mdc_digi_id", det.parse_mdc_digi_id, [mdc_id, np.uint32(mdc_id)], {}),
+             ("parse_emc_digi_id", det.parse_emc_digi_id, [emc_id, np.uint32(emc_id)], {})]
+    for name, fn, reps, kw in cases:
+        ref = {k_: np.array(v_, copy=True) for k_, v_ in fn(reps[0], **kw).items()}
+        for rep in reps + reps[:1]:
+            got = fn(rep, **kw)
+            chk.count(1, key=f"{name}-scalar-history-{type(rep).__name__}")
+            badk = next((k_ for k_ in ref if k_ not in got or not same(got[k_], ref[k_])), None) or next((k_ for k_ in got if k_ not in ref), None)
+            if badk is not None:
+                chk.failing_input(f"{name}({type(rep).__name__}{', ' + str(kw) if kw else ''}) after the caller edited the record an earlier call of the same lookup returned", {"element": int(rep), "field": badk},
+                                  (np.asarray(got[badk]).tolist() if badk in got else "missing"), (ref[badk].tolist() if badk in ref else "absent"), clause)
+                return
+            for k_ in list(got):                       # the caller's edit
+                try:
+                    with np.errstate(all="ignore"):
+                        got[k_] = np.asarray(got[k_]).astype(np.float64) * 10 + 1
+                except Exception:
+                    pass
+            got.pop(next(iter(got)))
+
+
+BYTE_ORDER_CHILD = r"""
+import sys, json
+import numpy as np
+import pybes3.detectors.digi_id as d
+import pybes3.detectors as det
+mode = sys.argv[1]
+mdc = np.array([0x10000000 | (5 << 11) | 7, 0x10000000 | (42 << 11) | 100, 0x10000000 | (17 << 11) | 255], dtype="<u4")
+gid = np.array([5, 6000, 300], dtype="<u4")
+cases = {"digi_id.mdc_id_to_wire": (d.mdc_id_to_wire, mdc), "digi_id.mdc_id_to_layer": (d.mdc_id_to_layer, mdc), "mdc_gid_to_layer": (det.mdc_gid_to_layer, gid),
+         "mdc_gid_to_wire": (det.mdc_gid_to_wire, gid), "emc_gid_to_theta": (det.emc_gid_to_theta, gid)}
+out = {}
+for name, (fn, a) in cases.items():
+    rec = {}
+    if mode == "native-first":
+        rec["native"] = np.asarray(fn(a)).tolist()
+    for bdt in (">u4", ">i8"):
+        try:
+            rec[bdt] = np.asarray(fn(a.astype(bdt))).tolist()
+        except Exception as ex:
+            rec[bdt] = "raised " + type(ex).__name__ + ": " + str(ex).replace("\x1b[1m", "").replace("\x1b[0m", "")[:60]
+    rec["reference"] = np.asarray(fn(a)).tolist()
+    out[name] = rec
+print(json.dumps(out))
+"""
+
+
+def byte_order_history(chk: core.Check):
+    """big-endian input as the FIRST call of a function in a fresh process vs after a native-order call (private numba caches): the recorded
+    finding is 'refused until a native loop exists'; a wrong VALUE in either history is a new violation"""
+    import json
+    import os
+    import shutil
+    import subprocess
+    import tempfile
+    for mode in ("fresh", "native-first"):
+        cache = tempfile.mkdtemp(prefix="c14be-")
+        try:
+            p = subprocess.run([core.PY, "-c", BYTE_ORDER_CHILD, mode], capture_output=True, text=True, timeout=900, env=dict(os.environ, NUMBA_CACHE_DIR=cache))
+        finally:
+            shutil.rmtree(cache, ignore_errors=True)
+        lines = [l for l in p.stdout.splitlines() if l.startswith("{")]
+        if not lines:
+            chk.obligation_broken("correspondence", "byte-order history child", p.stderr[-600:])
+            return
+        res = json.loads(lines[-1])
+        for name, rec in res.items():
+            for bdt in (">u4", ">i8"):
+                chk.count(1, key=f"byteorder-{mode}-{name}-{bdt}")
+                got = rec[bdt]
+                if isinstance(got, str):
+                    chk.hist("byte_order_history", f"{mode}:refused")
+                    if "Unsupported array dtype" in got:
+                        chk.failing_input(f"{name} on a big-endian ({bdt}) array, {'first call of the process' if mode == 'fresh' else 'after a call with the native-order array'}",
+                                          {"function": name, "dtype": bdt, "history": mode}, got, rec["reference"], "the same values for a NumPy array of any integer dtype",
+                                          finding_key={"key": "non-native-byte-order-refused-until-native-loop"})
+                    else:
+                        chk.failing_input(f"{name} on a big-endian ({bdt}) array ({mode})", {"function": name, "dtype": bdt, "history": mode}, got, rec["reference"], "the same values for a NumPy array of any integer dtype")
+                        return
+                else:
+                    chk.hist("byte_order_history", f"{mode}:accepted")
+                    if got != rec["reference"]:
+                        chk.failing_input(f"{name} on a big-endian ({bdt}) array ({mode}): values", {"function": name, "dtype": bdt, "history": mode}, got, rec["reference"], "the same values for a NumPy array of any integer dtype")
+                        return
+
+
 def main(chk: core.Check) -> int:
     thorough = chk.tier == "thorough"
     chk.level = "other"
@@ -401,6 +584,10 @@ def main(chk: core.Check) -> int:
         if not chk.failing:
             float_arguments(chk)
         if not chk.failing:
+            scalar_record_histories(chk)
+        if not chk.failing:
+            byte_order_history(chk)
+        if not [f for f in chk.failing if not f.get("finding_key")]:
             # dtype independence along a call history (private numba cache, child process): kernels first compiled for int64, a geometry table
             # handed out and edited by the caller, then the same lookups with dtypes that need a NEW compiled loop (uint64) - every dtype must
             # still return the published values
